@@ -68,6 +68,7 @@ type c06Op struct {
 }
 
 func t64u(t ntp.Time64) uint64 { return uint64(t.Seconds)<<32 | uint64(t.Fraction) }
+
 // t64After: a is later than b as times less than 68 years apart (NTP timestamps wrap at the
 // era boundary; the raw comparison of the repository's Time64.After does not apply across it).
 func t64After(a, b ntp.Time64) bool { return int64(t64u(a)-t64u(b)) > 0 }
